@@ -86,6 +86,7 @@ func C13(p *load.Prog, r *oblig.Run) {
 	c13PointerFills(p, r)
 	r.Rule("R13.b", "every writer of a membership field invalidates every cache derived from that field: it can reach an invalidation, and one is executed whenever the store is", 8)
 	c13FieldInventory(p, r)
+	c13TagCacheKey(p, r)
 	r.Rule("R13.d", "a function that calls a membership writer and resets a cache itself (because the writer cannot) does so on every path after the call", 2)
 	g := cg.New(p, false)
 	explicit, accessors := readOnlyRoots(p, g)
@@ -820,5 +821,87 @@ func c13FieldInventory(p *load.Prog, r *oblig.Run) {
 	for _, n := range names {
 		s := found[n][0]
 		r.Add("R13.e", "field "+n, s.pos, "assignment of an unclassified field").Fail(fmt.Sprintf("the field %s is assigned in %s (after construction) but is neither a structural field, a cache known to the pairing rule, nor reviewed plain state: if it remembers something computed from the document (a memo), no edit invalidates it and reads after an edit return what was true before", n, s.fn))
+	}
+}
+
+// c13TagCacheKey (R13.f): the children-by-tag cache is keyed, inside a node's entry, by the tag it was asked for
+// itself - a key computed from the tag (its descriptive name) lets two different tags share one entry, so a read for
+// one tag changes what a later read for the other returns.
+func c13TagCacheKey(p *load.Prog, r *oblig.Run) {
+	r.Rule("R13.f", "the children-by-tag cache is keyed by the tag itself", 2)
+	fn := p.Func(load.PkgRoot, "NodesWithTag")
+	if fn == nil || len(fn.Params) != 2 {
+		r.Add("R13.f", "anchor", "-", "anchor").Unknown("NodesWithTag(node, tag) not found")
+		return
+	}
+	tag := fn.Params[1]
+	isTag := func(v ssa.Value, in *ssa.Function) bool {
+		mi, ok := v.(*ssa.MakeInterface)
+		if !ok {
+			return false
+		}
+		x := mi.X
+		if x == ssa.Value(tag) {
+			return true
+		}
+		ld, ok := x.(*ssa.UnOp)
+		if !ok || ld.Op != token.MUL {
+			return false
+		}
+		// the parameter's cell, or the free variable bound to it in the deferred closure
+		cellOf := func(c ssa.Value) bool {
+			al, ok := c.(*ssa.Alloc)
+			if !ok {
+				return false
+			}
+			n, good := 0, false
+			for _, ref := range *al.Referrers() {
+				if st, ok := ref.(*ssa.Store); ok && st.Addr == ssa.Value(al) {
+					n++
+					good = st.Val == ssa.Value(tag)
+				}
+			}
+			return n == 1 && good
+		}
+		if cellOf(ld.X) {
+			return true
+		}
+		if fv, ok := ld.X.(*ssa.FreeVar); ok && in.Parent() == fn {
+			for _, b := range fn.Blocks {
+				for _, ins := range b.Instrs {
+					if mc, ok := ins.(*ssa.MakeClosure); ok && mc.Fn == in {
+						for i, f := range in.FreeVars {
+							if f == fv && cellOf(mc.Bindings[i]) {
+								return true
+							}
+						}
+					}
+				}
+			}
+		}
+		return false
+	}
+	n := 0
+	for _, f := range append([]*ssa.Function{fn}, fn.AnonFuncs...) {
+		for _, c := range su.Calls(f) {
+			cc := c.Common()
+			if !(su.CalleeIs(cc, "sync", "Load") || su.CalleeIs(cc, "sync", "Store") || su.CalleeIs(cc, "sync", "LoadOrStore")) || len(cc.Args) < 2 {
+				continue
+			}
+			// the inner map: the receiver is asserted from the outer map's value
+			if _, inner := cc.Args[0].(*ssa.TypeAssert); !inner {
+				if ex, isEx := cc.Args[0].(*ssa.Extract); !isEx || ex == nil {
+					continue
+				} else if _, isTA := ex.Tuple.(*ssa.TypeAssert); !isTA {
+					continue
+				}
+			}
+			n++
+			r.Check("R13.f", fmt.Sprintf("inner key %d in %s", n, load.FuncName(f)), p.Pos(c.Pos()), "key of the per-node map", isTag(cc.Args[1], f),
+				"the tag parameter", "the per-node map of the children-by-tag cache is accessed with a key computed from the tag ("+cc.Args[1].String()+") instead of the tag itself: tags that differ but share that key (two tags with the same descriptive name, an unregistered tag spelled like a registered tag's name) share one cache entry, so reading one changes what the other returns")
+		}
+	}
+	if n == 0 {
+		r.Add("R13.f", "inner keys", p.Pos(fn.Pos()), "accesses of the per-node map").Unknown("NodesWithTag does not access a per-node sync.Map")
 	}
 }
